@@ -6,6 +6,7 @@ import Ww.Driver.C15
 import Ww.Driver.C16
 import Ww.Driver.C02
 import Ww.Driver.C03
+import Ww.Driver.C13
 open Ww.Driver
 
 def dispatch (l : Line) : List Verdict :=
@@ -26,6 +27,8 @@ def dispatch (l : Line) : List Verdict :=
   | "proxycmds" => handleProxyCmds l
   | "cb" => handleCb l
   | "idtok" => handleIdTok l
+  | "login13" => handleLogin13 l
+  | "fresh13" => handleFresh13 l
   | k => [Verdict.bad s!"unknown kind {k}"]
 
 partial def loop (h : IO.FS.Stream) (out : IO.FS.Stream) (i : Nat) : IO Unit := do
